@@ -15,6 +15,7 @@ CONSTANTS
   ByzMax = TRUE
   MaxNodes = 5
   MaxVotes = 4
+  Monotone = TRUE
   RootVotes = TRUE
   Variant = "asis"
 INVARIANT FinalitySafety
